@@ -401,6 +401,9 @@ class DataMixin:
             tl_u = z3.Function('tuple_len_beyond4', Val, smt.Int)
             tup_len = z3.If(ValList.is_vl_nil(l0), 0, z3.If(ValList.is_vl_nil(l1), 1, z3.If(ValList.is_vl_nil(l2), 2,
                       z3.If(ValList.is_vl_nil(l3), 3, z3.If(ValList.is_vl_nil(l4), 4, 5 + z3.If(tl_u(t) < 0, 0, tl_u(t)))))))
+            # seq_of(t) is "the items of t as a sequence": for a structural tuple its length is the tuple's length (keeps len(x) and
+            # slices / iteration over x, which go through seq_of, consistent with each other)
+            ex.assume(z3.Implies(Val.is_v_tup(t), z3.Length(smt.seq_of(t)) == tup_len))
             return VInt(z3.If(Val.is_v_tup(t), tup_len, z3.Length(smt.seq_of(t))))
         if isinstance(v, VRef):
             h = ex.heap[v.addr]
